@@ -340,13 +340,25 @@ def replay_validate_on(model, ob):
 
 def register_dimensioned(reg):
   D = "class_named('DimensionedMeasuredValue')"
-  c = reg.contract(M, '_coordinates_len', props=['C06'])
+  c = reg.contract(M, '_coordinates_len', props=['C06'], name='_coordinates_len[scalar]', callsite=False)
   c.param('coordinates', 'val{int,float,str,none,bool}').returns('int').modifies()
   c.ensures('a_scalar_coordinate_counts_as_one', 'result == 1')
 
   c = reg.contract(M, 'DimensionedMeasuredValue.__setitem__', props=['C06'], name='DimensionedMeasuredValue.__setitem__[wrong number of coordinates]', callsite=False)
   c.param('coordinates', 'val{int,float,str,none,bool}').param('value', 'val')
   c.requires('more_than_one_dimension', 'self.num_dimensions != 1')
+  c.raises('InvalidDimensionsError', ensures=[('changes_nothing', 'len(self.value_dict) == old(len(self.value_dict))')])
+  c.ensures('never_accepted', 'False')
+  c.option(never_returns=True)
+  c.modifies()
+
+  c = reg.contract(M, '_coordinates_len', props=['C06'], name='_coordinates_len[tuple]', callsite=False)
+  c.param('coordinates', 'tuple[val]').returns('int').modifies()
+  c.ensures('a_tuple_counts_its_members', 'result == len(coordinates)')
+
+  c = reg.contract(M, 'DimensionedMeasuredValue.__setitem__', props=['C06'], name='DimensionedMeasuredValue.__setitem__[tuple of the wrong length]', callsite=False)
+  c.param('coordinates', 'tuple[val]').param('value', 'val')
+  c.requires('wrong_number_of_coordinates', 'len(coordinates) != self.num_dimensions')
   c.raises('InvalidDimensionsError', ensures=[('changes_nothing', 'len(self.value_dict) == old(len(self.value_dict))')])
   c.ensures('never_accepted', 'False')
   c.option(never_returns=True)
